@@ -1,0 +1,15 @@
+//go:build !verif
+
+// Package verifhook provides named observation points for external
+// runtime-verification harnesses. Without the `verif` build tag (this file) the
+// hooks are empty functions and have no effect.
+package verifhook
+
+// Enabled reports whether hooks are compiled in.
+const Enabled = false
+
+// Point is a no-op without the verif build tag.
+func Point(name string, args ...any) {}
+
+// Set is a no-op without the verif build tag.
+func Set(name string, fn func(args ...any)) (restore func()) { return func() {} }
